@@ -73,6 +73,16 @@ def run(chk):
     for idx, s in enumerate(fn.body):
         if isinstance(s, ast.Expr):
             continue
+        if isinstance(s, ast.Assign) and len(s.targets) == 1 and isinstance(s.targets[0], ast.Tuple) and len(s.targets[0].elts) == 2 \
+                and all(isinstance(e, ast.Name) for e in s.targets[0].elts) and isinstance(s.value, ast.Call) \
+                and dotted(s.value.func) in ('np.divmod', 'divmod') and len(s.value.args) == 2:
+            # q, r = divmod(x, c)
+            x_, c_ = ev(s.value.args[0]), ev(s.value.args[1])
+            if x_ is not None and c_ is not None and c_.is_const() and c_.c > 0:
+                qv = F.fdiv(x_, int(c_.c))
+                env[s.targets[0].elts[0].id] = qv
+                env[s.targets[0].elts[1].id] = x_ - qv.scale(int(c_.c))
+                continue
         if isinstance(s, ast.Assign) and len(s.targets) == 1 and isinstance(s.targets[0], ast.Name):
             v = ev(s.value)
             if v is not None:
@@ -120,6 +130,8 @@ def run(chk):
         ce = CapEval(alg, cconsts, roles['cap'], c)
         for s in fn.body[:k0]:
             if isinstance(s, ast.Assign) and isinstance(s.targets[0], ast.Name) and s.targets[0].id in env and ev(s.value) is not None:
+                continue
+            if isinstance(s, ast.Assign) and isinstance(s.targets[0], ast.Tuple) and isinstance(s.value, ast.Call) and dotted(s.value.func) in ('np.divmod', 'divmod'):
                 continue
             ce.stmt(s)
         for nm, v in env.items():
